@@ -4,7 +4,7 @@
 //! All state is atomics / const thread-locals: the hook runs inside signal handlers.
 
 use std::cell::Cell;
-use std::sync::atomic::{AtomicBool, AtomicU32, AtomicU64, AtomicUsize, Ordering};
+use std::sync::atomic::{AtomicBool, AtomicPtr, AtomicU32, AtomicU64, AtomicUsize, Ordering};
 
 use crate::evlog;
 use crate::site;
@@ -42,6 +42,8 @@ pub struct Rule {
     pub max: AtomicU32,
     pub arg: AtomicUsize,
     pub arg2: AtomicUsize,
+    /// CALL: the function (kept as a pointer so that Miri keeps its provenance).
+    pub callf: AtomicPtr<()>,
     /// Optional filter on the `a` argument of the point (usize::MAX = none).
     pub a_filter: AtomicUsize,
 }
@@ -58,6 +60,7 @@ const RULE0: Rule = Rule {
     max: AtomicU32::new(0),
     arg: AtomicUsize::new(0),
     arg2: AtomicUsize::new(0),
+    callf: AtomicPtr::new(std::ptr::null_mut()),
     a_filter: AtomicUsize::new(usize::MAX),
 };
 pub static RULES: [Rule; MAX_SITES] = [RULE0; MAX_SITES];
@@ -70,6 +73,8 @@ pub static GATES: [AtomicU32; MAX_GATES] = [A32; MAX_GATES];
 /// tid+1 of the thread parked at the gate (0 = nobody), and the site it is parked at.
 pub static PARKED: [AtomicU32; MAX_GATES] = [A32; MAX_GATES];
 pub static PARKED_SITE: [AtomicU32; MAX_GATES] = [A32; MAX_GATES];
+/// How many threads are parked at the gate right now.
+pub static PARKED_COUNT: [AtomicU32; MAX_GATES] = [A32; MAX_GATES];
 
 #[allow(clippy::declare_interior_mutable_const)]
 const A64: AtomicU64 = AtomicU64::new(0);
@@ -84,7 +89,7 @@ pub static NESTED_AT: [AtomicU64; MAX_SITES] = [A64; MAX_SITES];
 
 /// 0 = hook events are not logged, 1 = only DISPATCH_ENTER/EXIT, 2 = all sites.
 pub static LOG_HOOKS: AtomicU32 = AtomicU32::new(0);
-pub static OBSERVER: AtomicUsize = AtomicUsize::new(0);
+pub static OBSERVER: AtomicPtr<()> = AtomicPtr::new(std::ptr::null_mut());
 pub static COVER: AtomicBool = AtomicBool::new(false);
 pub static N_THREADS: AtomicU32 = AtomicU32::new(0);
 
@@ -147,7 +152,7 @@ pub fn flush_counts() {
 }
 
 pub fn set_observer(f: Option<CallFn>) {
-    OBSERVER.store(f.map(|f| f as usize).unwrap_or(0), Ordering::SeqCst);
+    OBSERVER.store(f.map(|f| f as *mut ()).unwrap_or(std::ptr::null_mut()), Ordering::SeqCst);
 }
 
 pub fn install() {
@@ -183,6 +188,7 @@ pub struct RuleSpec {
     pub max: u32,
     pub arg: usize,
     pub arg2: usize,
+    pub callf: Option<CallFn>,
     pub a_filter: usize,
 }
 
@@ -197,6 +203,7 @@ impl Default for RuleSpec {
             max: 0,
             arg: 0,
             arg2: 0,
+            callf: None,
             a_filter: usize::MAX,
         }
     }
@@ -214,6 +221,7 @@ pub fn set_rule(site: u32, s: RuleSpec) {
     r.max.store(s.max, Ordering::SeqCst);
     r.arg.store(s.arg, Ordering::SeqCst);
     r.arg2.store(s.arg2, Ordering::SeqCst);
+    r.callf.store(s.callf.map(|f| f as *mut ()).unwrap_or(std::ptr::null_mut()), Ordering::SeqCst);
     r.a_filter.store(s.a_filter, Ordering::SeqCst);
     r.mode.store(s.mode, Ordering::SeqCst);
 }
@@ -224,6 +232,10 @@ pub fn rule_off(site: u32) {
 
 pub fn fired(site: u32) -> u64 {
     RULES[site as usize].fired.load(Ordering::SeqCst)
+}
+
+pub fn parked_count(g: usize) -> u32 {
+    PARKED_COUNT[g].load(Ordering::SeqCst)
 }
 
 pub fn open_gate(g: usize) {
@@ -316,8 +328,8 @@ fn hook(s: u32, a: usize, b: usize) {
 
     // ---- workload-specific observer (must be async-signal-safe)
     let o = OBSERVER.load(Ordering::Relaxed);
-    if o != 0 {
-        let f: CallFn = unsafe { std::mem::transmute::<usize, CallFn>(o) };
+    if !o.is_null() {
+        let f: CallFn = unsafe { std::mem::transmute::<*mut (), CallFn>(o) };
         f(s, a, b);
     }
 
@@ -387,6 +399,7 @@ fn apply(r: &Rule, m: u32, s: u32, a: usize, b: usize) {
                     r.fired.fetch_add(1, Ordering::SeqCst);
                     PARKED_SITE[g].store(s, Ordering::SeqCst);
                     PARKED[g].store(crate::tid() + 1, Ordering::SeqCst);
+                    PARKED_COUNT[g].fetch_add(1, Ordering::SeqCst);
                     let mut i = 0u32;
                     while GATES[g].load(Ordering::SeqCst) == 0 {
                         i = i.wrapping_add(1);
@@ -396,6 +409,7 @@ fn apply(r: &Rule, m: u32, s: u32, a: usize, b: usize) {
                             std::hint::spin_loop();
                         }
                     }
+                    PARKED_COUNT[g].fetch_sub(1, Ordering::SeqCst);
                     PARKED[g].store(0, Ordering::SeqCst);
                 }
                 mode::RAISE => {
@@ -410,9 +424,9 @@ fn apply(r: &Rule, m: u32, s: u32, a: usize, b: usize) {
                     }
                 }
                 mode::CALL => {
-                    let f = r.arg.load(Ordering::Relaxed);
-                    if f != 0 {
-                        let f: CallFn = unsafe { std::mem::transmute::<usize, CallFn>(f) };
+                    let f = r.callf.load(Ordering::Relaxed);
+                    if !f.is_null() {
+                        let f: CallFn = unsafe { std::mem::transmute::<*mut (), CallFn>(f) };
                         IN_ACTION.with(|i| i.set(i.get() + 1));
                         r.fired.fetch_add(1, Ordering::SeqCst);
                         f(s, a, b);
